@@ -627,8 +627,8 @@ func (f *Firewall) evict(p firewall.Packet) {
 
 	newT := t.Expires.Sub(time.Now())
 
-	// Timeout is in the future, re-add the timer
-	if newT > 0 {
+	// Timeout is not in the past (inConns honours a conn up to and including Expires), re-add the timer
+	if newT >= 0 {
 		conntrack.TimerWheel.Advance(time.Now())
 		conntrack.TimerWheel.Add(p, newT)
 		return
